@@ -9,6 +9,7 @@ in the module account and touch no other balance; a failed message changes nothi
 -/
 import Canine.Proofs.StorageC
 import Canine.Generated.PureFns
+import Canine.Generated.KeyFacts
 namespace Canine.Storage
 open Bank
 
@@ -826,5 +827,28 @@ theorem C04_generated_upgrade_terms_are_the_model (ms left avail newCost oldCost
     simp only [bind, Option.bind]
     have : Dec.ofInt (60 * 60 * 1000) = Dec.ofInt hourMs := by decide
     rw [this]; cases Dec.quo? (Dec.ofInt left) (Dec.ofInt hourMs) <;> rfl
+
+/-! ## The parameter table as it stands in the source (regenerated fact) -/
+
+/-- Which store key of the `storage` parameter subspace is bound to which field of `Params`, with
+which validator (x/storage/types/params.go, `ParamSetPairs`): a governance change addresses a
+parameter *by key*, so the percentages the C04 theorems speak of are the ones governance set only
+while `POLRatio` writes `PolRatio`, `Referrals` writes `ReferralCommission`, and so on. -/
+def C04_expectedParamPairs : List (String × String × String) := [
+  ("KeyDepositAccount", "&p.DepositAccount", "validateDeposit"),
+  ("KeyProofWindow", "&p.ProofWindow", "validateProofWindow"),
+  ("KeyChunkSize", "&p.ChunkSize", "validateChunkSize"),
+  ("KeyMissesToBurn", "&p.MissesToBurn", "validateMissesToBurn"),
+  ("KeyPriceFeed", "&p.PriceFeed", "validatePriceFeed"),
+  ("KeyMaxContractAgeInBlocks", "&p.MaxContractAgeInBlocks", "validateMaxContractAgeInBlocks"),
+  ("KeyPricePerTbPerMonth", "&p.PricePerTbPerMonth", "validatePricePerTbPerMonth"),
+  ("KeyAttestFormSize", "&p.AttestFormSize", "validateAttestFormSize"),
+  ("KeyAttestMinToPass", "&p.AttestMinToPass", "validateAttestMinToPass"),
+  ("KeyCollateralPrice", "&p.CollateralPrice", "validateCollateralPrice"),
+  ("KeyCheckWindow", "&p.CheckWindow", "validateCheckWindow"),
+  ("KeyPOLRatio", "&p.PolRatio", "validateInt64"),
+  ("KeyReferrals", "&p.ReferralCommission", "validateInt64")]
+
+theorem C04_param_keys_as_modelled : Generated.paramPairs_storage = C04_expectedParamPairs := by decide
 
 end Canine.Storage
